@@ -669,7 +669,12 @@ def write_evidence(prop, tier, seed, level, tally, wall, rule, extra=None, viola
         "simulated_time": "none: the system has no timers or deadlines; logical time = global event sequence numbers (intercepted_events) and instructions_executed",
         "components": {
             "real": ["mscript CLI", "compiler", "bytecode interpreter", "bytecode_dev_transpiler", "pest", "gc", "libloading", "std", "kernel tmp directory behind the shim"],
-            "simulated": ["libc open/read/write/unlink/readdir/dlopen/dlsym/getrandom outcomes (interposition shim, plan-driven)", "collector schedule (cfg(mscript_verif) hook)"],
+            "simulated": ["libc open/read/write/lseek/unlink/rename/statx/readdir/dlopen/dlsym/getrandom outcomes (interposition shim, plan-driven)",
+                          "clock (clock_gettime: standing by default, per-thread ticking variant) and thread ids (gettid)",
+                          "collector schedule (cfg(mscript_verif) hook)",
+                          "process environment: command line, environment variables, working directory (also a removed one), descriptor limit",
+                          "interleaving of two mscript processes (stall rule: the second runs while the first is stopped at a planned call)"],
+            "simulated_time": "the simulator owns the clock; by default it stands still, so no simulated time elapses (nothing in the claimed properties may depend on time); cases may use the ticking variant (n-th reading of a thread = n ms)",
             "stub": ["FFI probe library (C19 only)", "reference models in the driver"],
         },
     }
